@@ -150,6 +150,9 @@ STMTS = {
     "min-builtin": "acc += min(a, 3)",
     "clear-builtin": "mc := make(map[uint64]uint64)\nmc[1] = 1\nclear(mc)\nacc += uint64(len(mc))",
     "string-of-byte": "sb := string(byte(a%26 + 65))\nacc += uint64(len(sb)) + uint64(sb[0])",
+    "string-of-byte-len-only": "sb := string(byte(a%26 + 65))\nacc += uint64(len(sb))",
+    "string-of-uint64-direct": "su := string(a%26 + 65)\nacc += uint64(len(su)) + 3",
+    "string-of-uint32-direct": "var c32 uint32 = 233\nsu := string(c32)\nacc += uint64(len(su))",
     "string-of-uint64": "su := string(rune(a%26 + 65))\nacc += uint64(len(su))",
     "string-of-named-string": "type NS string\nvar ns NS = \"ab\"\nacc += uint64(len(string(ns)))",
     "bytes-of-named-string": "type NS string\nvar ns NS = \"ab\"\nacc += uint64(len([]byte(ns)))",
